@@ -142,6 +142,64 @@ def processRawK (ka : RawConfig → Int) (lower : String → String) (raw : RawC
 /-- `ProcessRawConfig` with the KeepAlive statement of the tree being checked -/
 def processRaw (lower : String → String) (raw : RawConfig) : Except Err Cfg := processRawK keepAliveOf lower raw
 
+/-! ### `ParseConfig`: the JSON document, and what `cmd/ck-client` does with the result -/
+
+/-- the top-level JSON value of the configuration text, as `encoding/json` sees it (decoding stays on the Go side) -/
+inductive Doc
+  | null                       -- the JSON value `null`
+  | object (raw : RawConfig)   -- an object that decodes into `RawConfig` (absent members keep the zero value)
+  | other                      -- anything `json.Unmarshal` refuses for a struct: array, string, number, bool, syntax error
+deriving DecidableEq, Repr
+
+/-- `new(RawConfig)` -/
+def emptyRaw : RawConfig := ⟨"", "", "", [], [], 0, "", "", "", "", [], false, "", "", "", "", 0, 0⟩
+
+/-- `ParseConfig` after the text has been obtained: `raw = new(RawConfig); err = json.Unmarshal(content, target)`.
+`nullNil` = the target is the pointer variable (`&raw`), so `null` stores a nil pointer and reports no error;
+otherwise the target is the struct and `null` is a no-op.  `.ok none` = `(nil, nil)`. -/
+def parseDoc (nullNil : Bool) : Doc → Except Unit (Option RawConfig)
+  | .null => if nullNil then .ok none else .ok (some emptyRaw)
+  | .object raw => .ok (some raw)
+  | .other => .error ()
+
+inductive Loaded
+  | parseError
+  | configError (e : Err)
+  | ok (c : Cfg)
+  | nilDereference      -- `cmd/ck-client` reads `rawConfig.RemoteHost` of a nil `*RawConfig`: the process dies
+deriving DecidableEq, Repr
+
+/-- `ParseConfig` followed by what `cmd/ck-client` does (it uses the result without a nil test, then `ProcessRawConfig`) -/
+def loadDocWith (nullNil : Bool) (lower : String → String) (d : Doc) : Loaded :=
+  match parseDoc nullNil d with
+  | .error _ => .parseError
+  | .ok none => .nilDereference
+  | .ok (some raw) =>
+    match processRaw lower raw with
+    | .ok c => .ok c
+    | .error e => .configError e
+
+def loadDoc (lower : String → String) (d : Doc) : Loaded := loadDocWith Gen.ClientCfg.parseNullGivesNilConfig lower d
+
+/-! ### the first connection made with an accepted configuration -/
+
+inductive Connect | proceeds | panics
+deriving DecidableEq, Repr
+
+/-- `makeAuthenticationPayload`: `ecdh.GenerateSharedSecret(ephemeral, ServerPubKey)`; `dhFails pk` = `curve25519.X25519`
+refuses `pk` ("bad input point: low order point": the shared secret would be all-zero whatever the private key is).
+The client answers that error with `log.Panicf` (extracted). -/
+def firstConnect (dhFails : Bytes → Bool) (c : Cfg) : Connect :=
+  if Gen.ClientCfg.authPayloadPanicsOnDHError && dhFails c.serverPubKey then .panics else .proceeds
+
+/-- the server name in the ClientHello of one connection; `fresh` = what `randomServerName()` draws for it.
+`strings.EqualFold(name, "random")` is `lower name = "random"` for the ASCII names used. -/
+def sniOf (lower : String → String) (c : Cfg) (fresh : String) : String :=
+  let randomises := match c.transport with
+    | .direct _ => Gen.ClientCfg.directRandomisesServerName
+    | .cdn _ => Gen.ClientCfg.cdnRandomisesServerName
+  if randomises && lower c.mockDomain = "random" then fresh else c.mockDomain
+
 /-! ### `ssvToJson` on `List Char` -/
 
 abbrev Str := List Char
